@@ -1,0 +1,10 @@
+//go:build verif
+
+package filestore
+
+// VerifSetReaderFactory replaces the function the FileManager uses to open the
+// file a stored reference resolves to. Verification harness only: it lets the
+// harness observe the absolute path computed by Get without touching the disk.
+func VerifSetReaderFactory(f *FileManager, mk func(path string) (FileReader, error)) {
+	f.makeReader = mk
+}
